@@ -162,6 +162,30 @@ func C11(cfg Cfg) int {
 		var hist []string
 		for s := 0; s < 5+r.Intn(25); s++ {
 			k := r.Intn(3)
+			if r.Intn(5) == 0 {
+				// The batch rule (what a multi-attestation request reaches), with entries it must refuse among them:
+				// it writes a record for every entry of the batch.
+				n := 2 + r.Intn(2)
+				sel := r.Perm(3)[:n]
+				pubs := make([][]byte, n)
+				srcs, tgts := make([]uint64, n), make([]uint64, n)
+				for i, kk := range sel {
+					pubs[i] = keys[kk].Pub
+					srcs[i] = uint64(r.Intn(40))
+					tgts[i] = srcs[i] + uint64(r.Intn(8))
+					if r.Intn(3) == 0 {
+						srcs[i], tgts[i] = tgts[i]+1, srcs[i] // target below source: refused
+					}
+				}
+				res := ruleAtts(svc, pubs, srcs, tgts)
+				for i, kk := range sel {
+					if i < len(res) && res[i] == rules.APPROVED {
+						wm[kk].SignedAtt(srcs[i], tgts[i])
+					}
+					hist = append(hist, fmt.Sprintf("key%d batch att %d->%d -> %v", kk, srcs[i], tgts[i], res))
+				}
+				continue
+			}
 			if r.Intn(3) == 0 {
 				slot := uint64(r.Intn(300))
 				if r.Intn(10) == 0 {
